@@ -490,8 +490,18 @@ def cli_formats(rec, rnd, tmp, k):
     pm = B.tally(root, 'up', cfg, '--format', 'markdown', '-q')
     ph = B.tally(root, 'up', cfg, '-q')
     ps = B.tally(root, 'up', cfg, '--format', 'summary', '-q')
+    # the HTML report asked for under a bare file name (written where the command is run), into another existing folder, and by a process whose
+    # locale is not UTF-8 (the other three formats are run there too)
+    po = B.tally(root, 'up', cfg, '-q', '-o', ['report.html', 'my report.html'][k % 2])
+    os.makedirs(os.path.join(root, 'reports 2025'))
+    pn = B.tally(root, 'up', cfg, '-q', '-o', os.path.join('reports 2025', 'r.html'))
+    lenv = {'LC_ALL': 'C', 'LANG': 'C', 'PYTHONUTF8': '0', 'PYTHONCOERCECLOCALE': '0', 'PYTHONIOENCODING': 'utf-8'}
+    pl = B.tally(root, 'up', cfg, '-q', '-o', 'c-locale.html', env_extra=lenv)
+    pl2 = B.tally(root, 'up', cfg, '-q', '--format', rnd.choice(['json', 'markdown', 'summary']), env_extra=lenv)
+    rec.count('cli_runs', 8)
     try:
-        for nm, p in (('json', pj), ('markdown', pm), ('html', ph), ('summary', ps)):
+        for nm, p in (('json', pj), ('markdown', pm), ('html', ph), ('summary', ps), ('html -o <bare file name>', po), ('html -o <folder>/r.html', pn),
+                      ('html under LC_ALL=C', pl), ('text formats under LC_ALL=C', pl2)):
             if p.returncode != 0:
                 rec.violation('cli-format-fails:' + nm, f'missing source: {missing}; `up --format {nm} -q` exits {p.returncode}: {(p.stderr or p.stdout)[-200:]!r}', case)
                 return
@@ -505,6 +515,12 @@ def cli_formats(rec, rnd, tmp, k):
             return
         data = B.html_data(os.path.join(root, 'output', 'spending_summary.html'))
         figs = {'json': js['summary']['total_spending'], 'html': data['spendingTotal']}
+        for extra in ('c-locale.html', os.path.join('reports 2025', 'r.html')):
+            try:
+                figs['html ' + extra] = B.html_data(os.path.join(root, extra))['spendingTotal']
+            except Exception as e:
+                rec.violation('cli-format-fails:html-file-missing-or-unreadable', f'`up -o {extra}` exits 0 but the report cannot be read: {type(e).__name__}: {e}', case)
+                return
         if any(abs(v - want) > 0.011 for v in figs.values()):
             rec.violation('cli-formats-disagree', f'missing source: {missing}; spending total: {figs}, the statements that can be read give {want}', case)
     finally:
